@@ -121,6 +121,17 @@ PROVOKERS = [
 ]
 
 
+class Metres(float):
+    """A number that also looks like a value with units (but is not a registered
+    quantity class): encoders write it as the float it is."""
+    def __new__(cls, value, units="m"):
+        self = float.__new__(cls, value)
+        self.units = units
+        return self
+
+    value = property(lambda self: float(self))
+
+
 def cases(enc):
     spec = st.one_of(gv.modules(enc), gv.modules(enc), gv.modules(enc),
                      block_heavy(enc), block_heavy(enc))
@@ -133,7 +144,7 @@ def cases(enc):
                            min_size=1, max_size=3),
         "style": st.sampled_from(["instance", "instance-interleaved",
                                   "instance-interleaved", "dumps-fresh",
-                                  "dumps-default"])})
+                                  "dumps-default", "other-encoder-registers"])})
 
 
 def run_case(case):
@@ -142,6 +153,11 @@ def run_case(case):
     before, ids = snap(m)
     encoder = make_encoder(enc, **cfg)
     unrelated = [gv.build_module(o) for o in case.get("others", [])]
+    if style == "other-encoder-registers":
+        # the module holds a float subclass with .value/.units; between the calls
+        # *another* encoder object is told to treat that class as a quantity
+        m.append("QUANTITY_LIKE", Metres(1.5))
+        before, ids = snap(m)
     texts = []
     for call in range(3):
         try:
@@ -158,6 +174,14 @@ def run_case(case):
                         except (ValueError, TypeError):
                             pass
                 t = encoder.encode(m)
+            elif style == "other-encoder-registers":
+                if call == 1:
+                    make_encoder(enc).add_quantity_cls(Metres, "value", "units")
+                elif call == 2:
+                    make_encoder("PVL" if enc != "PVL" else "ODL").add_quantity_cls(
+                        Metres, "value", "units")
+                t = encoder.encode(m) if call < 2 else \
+                    make_encoder(enc, **cfg).encode(m)
             elif style == "dumps-fresh":
                 t = pvl.dumps(m, encoder=make_encoder(enc, **cfg))
             else:
@@ -191,6 +215,9 @@ def interleaved_modules(m):
     out = []
     if groups:
         out.append(PVLModule(groups))
+        # the same groups in modules that the encoder gives up on part-way
+        out.append(PVLModule(groups + [("BAD", float("inf"))]))
+        out.append(PVLModule([("BAD", float("inf"))] + groups))
     out.append(PVLModule(list(m.items()) + [("EXTRA_OBJECT", PVLObject([("Z", 1)]))]))
     if blocks:
         out.append(PVLModule(blocks[:1]))
